@@ -12,5 +12,5 @@ def main(tier='quick', seed=0):
         'pop order: with `every agenda element <= last popped priority` as loop invariant, top() being a maximum (STL contract) and the proved obligation monotone (every push <= the popped priority), the sequence of popped priorities is non-increasing',
         'optimality: A* meta-theorem (monotone priorities, zero estimate for goal items, first-pop-wins per (span, category) when the head is a function of the span, exhaustive combination) is ASSUMED; the clause itself is checked bounded against an exhaustive oracle',
     ]
-    extra = dict(functions_under_contract=['depccg/parsing.h::parse_sentence (Inv: span, head, outside estimate, inside bound; monotone pushes at all sites)'], cxx=info)
+    extra = dict(functions_under_contract=['depccg/parsing.h::parse_sentence (Inv: span, head, outside estimate, inside bound; monotone pushes at all sites)'] + cxx.HELPER_FUNCTIONS['C01'], cxx=info)
     return c12.finish_with(PROP, tier, seed, t0, records, errors, extra, assumptions, ['search_real.py'])
